@@ -21,11 +21,12 @@ func init() {
 			{"CONCTXN-WRAP", ruleConcTxnWrap},
 			{"TXN-AFTER-LOCK", ruleTxnAfterLock},
 			{"CACHE-FRESH-PER-CALL", ruleCacheFreshPerCall},
+			{"ATOMIC-FIELD", ruleAtomicField},
 			{"MERGE-QUEUE", ruleMergeQueue},
 			{"MERGE-SERIAL", ruleMergeSerial},
 		},
 		Meta: eng.PropMeta{
-			Explanation: "Schedules are not enumerable statically; data-race freedom is decided as the classic lockset discipline on a confirmed table of shared state, exact on that table: (LOCKSET) every access to server.{topics,replicators} holds server.mu, to server.conns holds connMu, to server.peerIdentities holds piMux, to mergeQueue.keys holds mergeQueue.mutex, to channelBus.isClosed holds closeMutex (must-hold dataflow over go/cfg; goroutine literals start with nothing held; constructors exempt); (LOCK-ESCAPE) no map-typed element loaded from a guarded map is used after the lock was released; (CONFINEMENT) channelBus.subs/events are touched only by handleChannel and the constructor, handleChannel is the only receiver of commandChannel and is started exactly once; (BUS-SEND-LOCKED) every send on commandChannel outside handleChannel happens while closeMutex is held and after the isClosed test; (CONCTXN-WRAP) the store tree of a concurrent transaction is built from the mutex-holding wrapper and the wrapper overrides every corekv.ReaderWriter method; (MERGE-QUEUE) mergeQueue.add inserts only on the absent edge under the lock and re-checks after being woken; (MERGE-SERIAL) merges of one document run between add and a deferred done. (TXN-AFTER-LOCK) as in C15. LOCKSET also requires the exclusive lock (Lock, not RLock) where a guarded field is written. (CACHE-FRESH-PER-CALL) the lock-free short-id caches carried in the context are new maps for every API call: each installing function of internal/db/id returns context.WithValue(…, <new map>) on every path.",
+			Explanation: "Schedules are not enumerable statically; data-race freedom is decided as the classic lockset discipline on a confirmed table of shared state, exact on that table: (LOCKSET) every access to server.{topics,replicators} holds server.mu, to server.conns holds connMu, to server.peerIdentities holds piMux, to mergeQueue.keys holds mergeQueue.mutex, to channelBus.isClosed holds closeMutex (must-hold dataflow over go/cfg; goroutine literals start with nothing held; constructors exempt); (LOCK-ESCAPE) no map-typed element loaded from a guarded map is used after the lock was released; (CONFINEMENT) channelBus.subs/events are touched only by handleChannel and the constructor, handleChannel is the only receiver of commandChannel and is started exactly once; (BUS-SEND-LOCKED) every send on commandChannel outside handleChannel happens while closeMutex is held and after the isClosed test; (CONCTXN-WRAP) the store tree of a concurrent transaction is built from the mutex-holding wrapper and the wrapper overrides every corekv.ReaderWriter method; (MERGE-QUEUE) mergeQueue.add inserts only on the absent edge under the lock and re-checks after being woken; (MERGE-SERIAL) merges of one document run between add and a deferred done. (TXN-AFTER-LOCK) as in C15. LOCKSET also requires the exclusive lock (Lock, not RLock) where a guarded field is written. (CACHE-FRESH-PER-CALL) the lock-free short-id caches carried in the context are new maps for every API call: each installing function of internal/db/id returns context.WithValue(…, <new map>) on every path. (ATOMIC-FIELD) the request parser's schema manager — replaced when a schema change commits, read by every parsed request, with no lock on either side — has a sync/atomic type.",
 			NotDecided:  "races on state outside the table, deadlock freedom (e.g. Publish holding closeMutex.RLock while the command channel is full), final-state accounting of counters under concurrency, absence of panics under all interleavings",
 		},
 	})
@@ -588,4 +589,42 @@ func ruleCacheFreshPerCall(c *eng.Ctx) {
 			shortFn(fi)+" can return a context whose lock-free cache map is not new (the incoming context, or a map read from it): calls that share a prepared context — several goroutines on one concurrent transaction — then read and write one plain map concurrently")
 	}
 	c.Floor(rule, n, 2)
+}
+
+// atomicFields: long-lived fields that are replaced by one goroutine (a committing schema change) while
+// requests of other goroutines read them, with no lock around either side. They are race free exactly
+// when the field has a sync/atomic type — then every access is a Load/Store by construction.
+var atomicFields = []struct{ typ, field, why string }{
+	{"internal/request/graphql.parser", "schemaManager", "replaced in SetSchema's OnSuccess callback, read by every request that is parsed"},
+}
+
+// ruleAtomicField checks the table above on the declared type of each field.
+func ruleAtomicField(c *eng.Ctx) {
+	const rule = "ATOMIC-FIELD"
+	for _, af := range atomicFields {
+		pkgRel := af.typ[:strings.LastIndex(af.typ, ".")]
+		tname := af.typ[strings.LastIndex(af.typ, ".")+1:]
+		construct := af.typ + "." + af.field + ":atomic-type"
+		var fld *types.Var
+		for _, pk := range c.P.Pkgs {
+			if eng.ShortPkg(pk.PkgPath) != pkgRel {
+				continue
+			}
+			if tn, ok := pk.Types.Scope().Lookup(tname).(*types.TypeName); ok {
+				if st, ok := tn.Type().Underlying().(*types.Struct); ok {
+					for i := 0; i < st.NumFields(); i++ {
+						if st.Field(i).Name() == af.field {
+							fld = st.Field(i)
+						}
+					}
+				}
+			}
+		}
+		if fld == nil {
+			c.Unknown(rule, construct, token.NoPos, "anchor-unresolved: "+af.typ+"."+af.field)
+			continue
+		}
+		c.Check(strings.HasPrefix(eng.TypeName(fld.Type()), "sync/atomic."), rule, construct, fld.Pos(), "the field has a sync/atomic type: every access is a Load or a Store",
+			af.typ+"."+af.field+" is a plain "+fld.Type().String()+" ("+af.why+"): the write and the concurrent reads are a data race")
+	}
 }
